@@ -94,6 +94,26 @@ def gen_cases(tier, rng):
         rng.shuffle(s["E"])
         s["E"] = [float(x) for x in s["E"]]
         cases.append({"cls": "foerster" if foerster else "redfield", "sys": s, "cost": 2 + N * s["Nt"] / 400.0})
+    # Foerster transfer between sites with EQUAL bare energies but different baths (the relaxed energies differ by the reorganisation
+    # energies only), and 4-site systems with two equal gaps and the baths swapped between the pairs
+    for i in range(6 if tier == "quick" else 40):
+        N = [2, 3, 4][i % 3]
+        T = float([300.0, 350.0, 260.0][i % 3])
+        s = build.gen_system(rng, N=N, T=T, dt=1.0, dipoles=False, jmax=60.0, spread=300.0, lam=(20.0, 140.0), tau=(30.0, 150.0))
+        e0 = r3(rng.uniform(11500, 12500))
+        lamA, lamB = r3(rng.uniform(20.0, 50.0)), r3(rng.uniform(100.0, 150.0))
+        tauA, tauB = r3(rng.uniform(40.0, 70.0)), r3(rng.uniform(90.0, 140.0))
+        A = {"ftype": "OverdampedBrownian", "reorg": lamA, "cortime": tauA, "T": T}
+        Bb = {"ftype": "OverdampedBrownian", "reorg": lamB, "cortime": tauB, "T": T}
+        if N == 4:
+            s["E"] = [e0, e0 + 100.0, e0, e0 + 100.0]
+            s["bath"] = [dict(A), dict(Bb), dict(Bb), dict(A)]
+        else:
+            s["E"] = [e0] * N
+            s["bath"] = [dict(A), dict(Bb), dict(A)][:N]
+        s["Nt"] = int(max(8.5 * max(tauA, tauB), 400.0)) + int(rng.integers(0, 200))
+        s["shared_bath"] = False
+        cases.append({"cls": "foerster", "sys": s, "directed": "equal-energies-different-baths", "cost": 2 + N * s["Nt"] / 400.0})
     ns = 24 if tier == "quick" else 160
     for i in range(ns):
         T = r3(rng.uniform(77, 400))
